@@ -77,8 +77,13 @@ pub fn det_source(idx: u64) -> String {
             s.push_str(&format!("void f{}({});\n", f, sig(*f))); // redeclared
         }
     }
-    if rng.chance(1, 3) {
+    let two_handlers = rng.chance(1, 3);
+    if rng.chance(1, 3) || two_handlers {
         s.push_str("void interrupt nmi() { a++; }\n");
+    }
+    if two_handlers {
+        // a second handler with a callee nothing else reaches
+        s.push_str("void only_from_irq() { b++; }\nvoid interrupt irq() { only_from_irq(); }\n");
     }
     let mut deforder: Vec<usize> = (0..nf).collect();
     shuffle(&mut deforder, &mut rng);
